@@ -4,6 +4,7 @@ import (
 	"fmt"
 	"os"
 	"go/ast"
+	"go/constant"
 	"go/token"
 	"go/types"
 	"sort"
@@ -1157,6 +1158,41 @@ func (fr *Frame) loopInvariants(b *ssa.BasicBlock, li *loopInfo, spec *LoopSpec)
 			}
 		}
 	}
+	// a counter that starts at a non-negative constant and only goes up by a positive constant stays non-negative
+	for _, ins := range b.Instrs {
+		p, ok := ins.(*ssa.Phi)
+		if !ok {
+			break
+		}
+		if p.Comment == "rangeindex" || len(p.Edges) != 2 || basicKind(p.Type()) != "int" {
+			continue
+		}
+		up, start := false, false
+		for _, e := range p.Edges {
+			if c, ok := e.(*ssa.Const); ok && c.Value != nil {
+				if v, exact := constant.Int64Val(constant.ToInt(c.Value)); exact && v >= 0 {
+					start = true
+				}
+			}
+			if bo, ok := e.(*ssa.BinOp); ok && bo.Op == token.ADD && bo.X == ssa.Value(p) {
+				if c, ok := bo.Y.(*ssa.Const); ok && c.Value != nil {
+					if v, exact := constant.Int64Val(constant.ToInt(c.Value)); exact && v > 0 {
+						up = true
+					}
+				}
+			}
+		}
+		if up && start {
+			pp := p
+			res = append(res, &invariant{text: "the counter " + p.Comment + " of the loop is non-negative (automatic)", auto: func(env *SpecEnv) string {
+				v := env.vars["$phi:"+pp.Name()]
+				if v == nil {
+					return "true"
+				}
+				return "(<= 0 " + v.S + ")"
+			}})
+		}
+	}
 	if spec != nil {
 		for _, c := range spec.Invariants {
 			res = append(res, &invariant{text: c.Text, clause: c})
@@ -1251,6 +1287,18 @@ func (fr *Frame) loopEnv(b *ssa.BasicBlock, li *loopInfo, st *State, phiVals map
 	env.oldVars = map[string]*Val{}
 	for _, p := range fr.fn.Params {
 		env.oldVars[p.Name()] = fr.val(p)
+	}
+	for _, fv := range fr.fn.FreeVars {
+		// a closure's captured variables, by the names its contract uses (see contractEnv)
+		if _, isPtr := fv.Type().Underlying().(*types.Pointer); isPtr && fr.freeVars == nil {
+			if _, ok := env.oldVars[fv.Name()]; !ok && fr.entrySt != nil {
+				env.oldVars[fv.Name()] = fr.load(fr.entrySt, fr.placeOf(fr.val(fv)))
+			}
+			continue
+		}
+		if _, ok := env.oldVars[fv.Name()]; !ok {
+			env.oldVars[fv.Name()] = fr.val(fv)
+		}
 	}
 	env.forced = forced
 	env.resolve = func(name string) *Val { return fr.resolveLocal(name, b, st) }
@@ -1424,6 +1472,10 @@ func (fr *Frame) callSiteSpecs(b *ssa.BasicBlock, idx int, ins ssa.Instruction, 
 				env.callArgs = append(env.callArgs, fr.val(a))
 			}
 		}
+		if len(cs.Assume) > 0 && cc != nil {
+			// ... and once more right after the call, when its result can be named
+			fr.pendingAfter = append(fr.pendingAfter, ins)
+		}
 		for _, cl := range cs.Assume {
 			// ghost definition assumed just before this site (listed as an assumption)
 			u.assert(implies(reach, env.eval(cl.Expr).S))
@@ -1456,6 +1508,18 @@ func (fr *Frame) localEnv(b *ssa.BasicBlock, idx int, st *State) *SpecEnv {
 	env.oldVars = map[string]*Val{}
 	for _, p := range fr.fn.Params {
 		env.oldVars[p.Name()] = fr.val(p)
+	}
+	for _, fv := range fr.fn.FreeVars {
+		// a closure's captured variables, by the names its contract uses (see contractEnv)
+		if _, isPtr := fv.Type().Underlying().(*types.Pointer); isPtr && fr.freeVars == nil {
+			if _, ok := env.oldVars[fv.Name()]; !ok && fr.entrySt != nil {
+				env.oldVars[fv.Name()] = fr.load(fr.entrySt, fr.placeOf(fr.val(fv)))
+			}
+			continue
+		}
+		if _, ok := env.oldVars[fv.Name()]; !ok {
+			env.oldVars[fv.Name()] = fr.val(fv)
+		}
 	}
 	env.resolve = func(name string) *Val { return fr.resolveLocalAt(name, b, idx, st) }
 	env.siteDominated = func(callee string, n int) bool {
@@ -1565,6 +1629,7 @@ func (fr *Frame) afterCall(b *ssa.BasicBlock, idx int, ins ssa.Instruction, st *
 		}
 		cs.Hit = true
 		env := fr.localEnv(b, idx, st)
+		env.callArgs = fr.callArgVals[fmt.Sprintf("%s#%d", name, n)]
 		for _, cl := range cs.Assume {
 			fr.u.assert(implies(reach, env.eval(cl.Expr).S))
 			fr.u.note("ghost definition assumed in %s after %s: %s", fr.fn.Name(), name, cl.Text)
